@@ -77,8 +77,10 @@ Init ==
     \* decl: where the two clock domains are declared - at the top level only, or ("inner") once more by the wrapped
     \* submodule itself (the same ClockDomain objects); the meaning of the wrappers does not depend on it.
     \* (A renamer around a module that declares the domains would rename the declarations too: not generated.)
-    /\ \E a \in DomCfgs, b \in DomCfgs, ws \in Stacks, dd \in RegDoms, dc \in {"top", "inner"} :
-          /\ dc = "inner" => \A i \in 1..Len(ws) : ws[i].k # "rename"
+    \* "shadow": the top level declares other, idle domains of the same names; the wrapped submodule and the module of r3
+    \* declare the real ones themselves - a module's own declaration governs it and everything below it.
+    /\ \E a \in DomCfgs, b \in DomCfgs, ws \in Stacks, dd \in RegDoms, dc \in {"top", "inner", "shadow"} :
+          /\ dc # "top" => \A i \in 1..Len(ws) : ws[i].k # "rename"
           /\ cfg = [A |-> a, B |-> b, ws |-> ws, d1 |-> dd[1], d2 |-> dd[2], decl |-> dc]
     /\ v = [clkA |-> 0, clkB |-> 0, rstA |-> 0, rstB |-> 0, c1 |-> 0, c2 |-> 0, d |-> 0, r1 |-> 1, r2 |-> 1, r3 |-> 1,
             r4a |-> 1, r4b |-> 1, mw |-> 1, mr |-> 0, mt |-> 0]
